@@ -52,10 +52,11 @@ pub fn check_case(case: &MapCase, st: &mut Stats) -> Check {
         st.sample(|| case.sample());
     }
     let bytes = case.bytes();
-    let m_plain = mapper(&bytes, false)?;
+    let variants = mapper_variants(&bytes)?;
     let buf = write_cache(&bytes)?;
     let cache = parse_cache(&buf)?;
-    let impls: [&dyn Retracer; 2] = [&m_plain, &cache];
+    let mut impls: Vec<&dyn Retracer> = variants.iter().map(|(m, _)| m as &dyn Retracer).collect();
+    impls.push(&cache);
     for (ii, r) in impls.into_iter().enumerate() {
         no_panic("query", || {
             let mut scratch = Stats::new();
